@@ -1,0 +1,47 @@
+//! Verification-only hooks, compiled only with the `verif_hooks` feature.
+//! Nothing here is used by the library itself (except the seeded RNG, when a seed was set).
+
+use std::cell::RefCell;
+use std::net::SocketAddr;
+
+pub use crate::packet::{ChallengeToken, Packet, PacketType};
+pub use crate::replay_protection::ReplayProtection;
+pub use crate::token::{verif_open_private_token, verif_seal_private_token};
+
+/// Mirror of the crate-private `PrivateConnectToken`.
+#[derive(Debug, Clone, PartialEq, Eq)]
+pub struct PrivateToken {
+    pub client_id: u64,
+    pub timeout_seconds: i32,
+    pub server_addresses: [Option<SocketAddr>; 32],
+    pub client_to_server_key: [u8; 32],
+    pub server_to_client_key: [u8; 32],
+    pub user_data: [u8; 256],
+}
+
+thread_local! {
+    static RNG_STATE: RefCell<Option<u64>> = const { RefCell::new(None) };
+}
+
+/// Makes `generate_random_bytes` deterministic on this thread (`None` restores the OS RNG).
+pub fn set_rng_seed(seed: Option<u64>) {
+    RNG_STATE.with(|s| *s.borrow_mut() = seed);
+}
+
+pub(crate) fn seeded_bytes<const N: usize>() -> Option<[u8; N]> {
+    RNG_STATE.with(|s| {
+        let mut s = s.borrow_mut();
+        let state = s.as_mut()?;
+        let mut out = [0u8; N];
+        for b in out.iter_mut() {
+            // splitmix64
+            *state = state.wrapping_add(0x9E37_79B9_7F4A_7C15);
+            let mut z = *state;
+            z = (z ^ (z >> 30)).wrapping_mul(0xBF58_476D_1CE4_E5B9);
+            z = (z ^ (z >> 27)).wrapping_mul(0x94D0_49BB_1331_11EB);
+            z ^= z >> 31;
+            *b = (z >> 24) as u8;
+        }
+        Some(out)
+    })
+}
